@@ -91,6 +91,7 @@ theorem flag_ifaceParentPrecheck : Gen.Rules.ifaceParentPrecheck = true := by de
 theorem flag_linkPrecheck : Gen.Rules.linkPrecheck = true := by decide
 theorem flag_svcRollbackAll : Gen.Rules.svcRollbackAll = true := by decide
 theorem flag_compositeRollback : Gen.Rules.compositeRollback = true := by decide
+theorem flag_connectNamePrecheck : Gen.Rules.connectNamePrecheck = true := by decide
 
 /-! ### running the primitives -/
 
@@ -102,7 +103,7 @@ theorem ro_step {α β : Type} {m : M Topo α} {f : α → M Topo β} {t : Topo}
   · rw [h] at h1; simp at h1; subst h1; rw [bind_ok h]; exact hok a h
   · rw [h] at h1; simp at h1; subst h1; rw [bind_err h]; exact herr e
 
-theorem guard_ok {c : Bool} {e : Err} {t : Topo} {u : Unit} (h : M.guard c e t = (.ok u, t)) : c = true := by
+theorem guard_ok {c : Bool} {e : Err} {t t' : Topo} {u : Unit} (h : M.guard c e t = (.ok u, t')) : c = true := by
   cases c <;> simp [M.guard] at h ⊢
 
 theorem idTaken_iff {t : Topo} {cls : Cls} {i : Nid} : idTaken t cls i = false ↔ ∀ m ∈ t.nodes, m.nid ≠ i := by
